@@ -280,7 +280,8 @@ func runQP(c QPCase, rec *h.Rec) error {
 	if err != nil {
 		return err
 	}
-	if (c.Kind == "sk" || collisionBits(c.Spec.Xs, n) >= 50) && (qpEqual(c0, d0, lq, lp) || qpEqual(c1, d1, lq, lp)) {
+	c0OK := c.Kind != "sk" || !sStat.zero || collisionBits(c.Spec.Xe, n) >= 50
+	if (c.Kind == "sk" || collisionBits(c.Spec.Xs, n) >= 50) && ((c0OK && qpEqual(c0, d0, lq, lp)) || qpEqual(c1, d1, lq, lp)) {
 		return h.Failf(kbase+":repeat:component-equal", "two zero-encryptions share a component")
 	}
 	raw2, dom2, _ := qpDecrypt(params, lq, lp, d0, d1, sk, c.IsNTT)
